@@ -73,7 +73,57 @@ def builtin_table(F):
                         table[l] = var
                 if sum(1 for v in table.values() if v and "RustFieldType" in v) > 5:
                     return table, fn, Hh.sp(x)
+    # the table as data: a constant array of (name, variant) pairs that a function reachable from as_rust_type searches
+    for cb in F.lib.bodies:
+        if not str(cb.get("kind", "")).startswith(("Const", "Static")) or cb.get("hir") is None or "{constant" in cb["path"]:
+            continue
+        nb = Hh.norm_body(cb)
+        rows = {}
+        for x in Hh.exprs(nb["value"]):
+            if x.get("k") == "Array":
+                for el in x["es"]:
+                    el = Hh.strip(el)
+                    if el.get("k") == "Tup" and len(el["es"]) == 2:
+                        a, b_ = Hh.strip(el["es"][0]), Hh.strip(el["es"][1])
+                        if a.get("k") == "Lit" and a.get("lit") == "str" and b_.get("k") == "Path" and "RustFieldType" in (b_.get("path") or ""):
+                            rows[a["v"]] = b_["path"]
+        if len(rows) > 5:
+            users = []
+            for fn in _reachable_bodies(F, AS_RUST_TYPE):
+                fb = F.lib.body(fn)
+                if fb is None or fb.get("hir") is None:
+                    continue
+                if any(y.get("k") == "Path" and y.get("path") == cb["path"] for y in Hh.exprs(Hh.norm_body(fb)["value"])):
+                    users.append(fn)
+            if users:
+                TABLE_LOOKUP[cb["path"]] = users
+                return rows, cb["path"], cb.get("span", "-")
     return None, None, None
+
+
+TABLE_LOOKUP = {}
+INEXACT = ("eq_ignore_ascii_case", "to_lowercase", "to_uppercase", "to_ascii_lowercase", "to_ascii_uppercase", "starts_with", "ends_with",
+           "contains", "trim", "trim_start", "trim_end", "trim_matches", "strip_prefix", "strip_suffix", "find", "matches")
+
+
+def table_lookup_exact(F, const_path):
+    """The functions that search a constant builtin table compare names with `==` only. -> (ok, what was found)"""
+    found = []
+    for fn in TABLE_LOOKUP.get(const_path, []):
+        nb = Hh.norm_body(F.lib.body(fn))
+        eq = False
+        for y in Hh.exprs(nb["value"]):
+            if y.get("k") == "Binary" and y.get("op") == "Eq":
+                eq = True
+            if y.get("k") == "MethodCall" and y["name"] in ("eq",):
+                eq = True
+            if y.get("k") == "MethodCall" and y["name"] in INEXACT:
+                rty = (Hh.strip(y["recv"]).get("ty") or "").replace("&", "").replace("mut ", "").replace("'static ", "").strip()
+                if rty in ("str", "std::string::String", "String"):
+                    found.append(y["name"])
+        if not eq and not found:
+            found.append("no equality comparison")
+    return (not found), found
 
 
 def _pat_literals(p):
@@ -152,6 +202,13 @@ def rule_builtins(ck, F, X, rule="R1", want=BUILTINS):
             ck.ok(rule, f"{b}", site, f"xs:{b} -> {var.rsplit('::', 1)[-1]} -> `{text}`")
         else:
             ck.violation(rule, f"{b}", site, f"xs:{b} is mapped to {var.rsplit('::', 1)[-1]} which is printed as `{text}`; documented mapping is `{rust}`")
+    if rule == "R1" and fall in TABLE_LOOKUP:
+        ok_, what = table_lookup_exact(F, fall)
+        if ok_:
+            ck.ok(rule, "lookup-exact", site, "the builtin table is searched by exact name")
+        else:
+            ck.violation(rule, "lookup-exact", site, f"the builtin table is not searched by exact name ({sorted(set(what))}): a schema type whose name differs "
+                         f"from a builtin only by that (case, prefix, surrounding text) is mapped to the builtin's Rust type instead of its own struct")
     if rule == "R1":
         # what a name outside the table becomes: an OtherRustType built in as_rust_type (or in a helper / closure of it) from the
         # PascalCase local name and the module of the prefix
